@@ -247,6 +247,54 @@ def run_expo(ctx, doubles):
                 ctx.diverge('%s exposition of a batch of floats differs from the model' % fmt, {'bits_list': bl, 'fmt': fmt})
 
 
+def run_hist(ctx, doubles):
+    """le labels of real Histograms: the same bounds given as floats, ints and strings in several spellings must all be
+    exposed as one canonical text that parses back to the bound (the property: bucket label strings agree across processes,
+    restarts and clients)"""
+    from prometheus_client import CollectorRegistry, Histogram
+    rng = ctx.rng
+    pos = sorted({d for d in doubles if d == d and 0 < d < math.inf})
+    if not pos:
+        return
+
+    def spellings(b):
+        out = [b, repr(b), ' %r ' % b, '%.17e' % b, '+%r' % b]
+        if b == int(b) and b < 1e22:
+            out += [int(b), str(int(b)), '%d.0' % int(b), '%de0' % int(b)]
+        return out
+
+    for start in range(0, len(pos), 6):
+        bounds = pos[start:start + 6]
+        variants = [list(bounds), [rng.choice(spellings(b)) for b in bounds], [rng.choice(spellings(b)) for b in bounds]]
+        labels = []
+        for v in variants:
+            try:
+                h = Histogram('h', 'd', buckets=v + [rng.choice([math.inf, 'inf', '+Inf', 'Infinity'])], registry=CollectorRegistry())
+                les = [s.labels['le'] for s in h.collect()[0].samples if s.name == 'h_bucket']
+            except Exception as e:
+                ctx.fail('C13:hist-raises', 'Histogram(buckets=%r) raised %s' % (v, type(e).__name__), {'bounds_bits': [lib.bits_of(b) for b in bounds]})
+                les = None
+            labels.append(les)
+        ctx.case(nontrivial_key=('hist', tuple(lib.bits_of(b) for b in bounds)))
+        ctx.count('hist-le-labels')
+        for v, les in zip(variants, labels):
+            if les is None:
+                continue
+            if len(les) != len(bounds) + 1 or les[-1] != '+Inf':
+                ctx.fail('C13:hist-le-shape', 'Histogram(buckets=%r) exposes le labels %r' % (v, les), {'bounds_bits': [lib.bits_of(b) for b in bounds]})
+                continue
+            for b, le in zip(bounds, les):
+                why = oracle(b, le)
+                if why:
+                    ctx.fail('C13:hist-le', 'bound %r given as one of %r is exposed as le=%r: %s' % (b, v, le, why),
+                             {'bounds_bits': [lib.bits_of(x) for x in bounds], 'variant': [repr(x) for x in v]})
+        if labels[0] is not None:
+            for v, les in zip(variants[1:], labels[1:]):
+                if les is not None and les != labels[0]:
+                    ctx.fail('C13:hist-le-spelling', 'the same bounds spelled %r are exposed with le labels %r, spelled as floats %r'
+                             % (v, les, labels[0]), {'bounds_bits': [lib.bits_of(x) for x in bounds], 'variant': [repr(x) for x in v]})
+
+
 def utils_go(b):
     from prometheus_client import utils
     return utils.floatToGoString(b)
@@ -267,11 +315,14 @@ def run(ctx):
     sample = mix + [ds[i] for i in range(0, len(ds), max(1, len(ds) // (600 if ctx.tier == 'quick' else 6000)))]
     rng.shuffle(sample)
     run_expo(ctx, mix + sample)
+    run_hist(ctx, [x for x in mix + sample if x == x and 0 < x < math.inf] + [1e6, 1e7, 2.5e15, 1e16, 1e21, 1e22, 0.005, 123456789.0])
 
 
 def replay(ctx, case):
     c = case.get('case', {})
-    if 'bits_list' in c:
+    if 'bounds_bits' in c:
+        run_hist(ctx, [lib.from_bits(int(b)) for b in c['bounds_bits']])
+    elif 'bits_list' in c:
         run_expo(ctx, [lib.from_bits(int(b)) for b in c['bits_list']])
     else:
         d = lib.from_bits(int(c['bits']))
